@@ -184,7 +184,7 @@ func DHTPut(params DHTPutParams) (*DHTPutResult, error) {
 		res.Responded++
 		if resp.Accepted {
 			res.Accepted++
-			if DistanceLt(params.Key, node.ID[:], res.Closest[:]) {
+			if res.Closest.IsZero() || DistanceLt(params.Key, node.ID[:], res.Closest[:]) {
 				res.Closest = node.ID
 			}
 		}
